@@ -137,8 +137,8 @@ def run(ck):
                 ns = [rng.uniform(0.5, 2) for _ in ps]
             elif style < 0.55:
                 # type-I data on a fine grid: n(1-p) has a flat maximum, the first decrease after it is tiny (and the capacity may be small)
-                nm, k = logu(rng, 1e-4, 1e-1), rng.uniform(15, 120)
-                step = rng.choice([0.0025, 0.005, 0.01])
+                nm, k = (logu(rng, 1e-4, 1e-3) if rng.random() < 0.6 else logu(rng, 1e-3, 1e-1)), rng.uniform(15, 120)
+                step = rng.choice([0.001, 0.0025, 0.005, 0.01])
                 ps = [0.01 + step * j for j in range(int(rng.uniform(0.25, 0.5) / step))]
                 n = len(ps)
                 ns = [nm * k * p / (1 + k * p) for p in ps]
